@@ -572,10 +572,11 @@ def run_history(script: list[dict], cap: int, world: str, mode: str, seed: int, 
                     boundary({"k": stream_method(cur["k"], cur["co"]), "fail": cur["fail"], "ci": cur["ci"], "co": cur["co"]})
                     sess, cur, mine = None, None, []
                 elif o == "ReleaseHeld":
-                    if op["off"] not in held:
+                    if op["k"] > len(held):
                         continue
-                    drop_held(op["off"])
-                    ev.append({"e": "ReleaseHeld", "off": op["off"], "tab": tab()})
+                    moff = sorted(held)[op["k"] - 1]          # the k-th held region in offset order
+                    drop_held(moff)
+                    ev.append({"e": "ReleaseHeld", "off": moff, "tab": tab()})
                     boundary({"k": "release", "fail": "-"})
             # the history is over: whatever the client still holds must still read as delivered
             for h in [held[moff] for moff in sorted(held)] + anon:
